@@ -374,6 +374,9 @@ type PairOptions struct {
 	Caches          bool // negotiate-like caches (atom/reg/err)
 	ShapeAB         []Shape
 	ShapeBA         []Shape
+	// Tweak may rewrite the two handshake results before the connections are built (flags as
+	// announced / as believed by either side)
+	Tweak func(ra, rb *gen.HandshakeResult)
 }
 
 func caches() (ea, er, ee, da, dr, de *sync.Map) {
@@ -414,6 +417,9 @@ func Results(o PairOptions) (ra, rb gen.HandshakeResult) {
 		PeerMaxMessageSize: o.MaxMessageSizeB, NodeMaxMessageSize: o.MaxMessageSizeA, Custom: co}
 	rb = gen.HandshakeResult{ConnectionID: id, Peer: "a@localhost", PeerCreation: 1001, PeerFlags: flags, NodeFlags: flags,
 		PeerMaxMessageSize: o.MaxMessageSizeA, NodeMaxMessageSize: o.MaxMessageSizeB, Custom: co}
+	if o.Tweak != nil {
+		o.Tweak(&ra, &rb)
+	}
 	return
 }
 
